@@ -69,6 +69,15 @@ fn build_state(k: usize) -> Memfs {
         let _ = m.symlink("/a/lf", "/a/f");
         let _ = m.mkdir_p("/é/€");
         let _ = m.write_all("/ ", b"space");
+        // links whose recorded kind is stale: the directory behind /stl became a file, the file behind /stf a directory
+        let _ = m.mkdir_p("/st");
+        let _ = m.symlink("/stl", "/st");
+        let _ = m.remove("/st");
+        let _ = m.mkfile("/st");
+        let _ = m.mkfile("/sf");
+        let _ = m.symlink("/stf", "/sf");
+        let _ = m.remove("/sf");
+        let _ = m.mkdir_p("/sf/x");
     }
     if k == 3 {
         // deeper than the traversal's cap of 50 open directories: an empty directory at the bottom, a file and a
@@ -177,6 +186,22 @@ fn ops_two(a: &str, b: &str) -> Vec<Op> {
         Op::CopyB(a.clone(), b.clone(), CopyMode::All(u32::MAX), true),
         Op::Symlink(a.clone(), b.clone()),
     ]
+}
+
+/// every builder option that makes a call walk through links
+fn follow_ops(p: &str) -> Vec<Op> {
+    let p = p.to_string();
+    let mut v = vec![];
+    for recurse in [None, Some(false), Some(true)] {
+        v.push(Op::ChmodB(p.clone(), ChmodO { all: Some(0o750), dirs: None, files: None, sym: None, recurse, follow: true }));
+        v.push(Op::ChmodB(p.clone(), ChmodO { all: None, dirs: None, files: None, sym: Some("a:a+r".into()), recurse, follow: true }));
+        v.push(Op::ChownB(p.clone(), ChownO { uid: Some(5), gid: Some(6), recurse, follow: true }));
+    }
+    for m in [CopyMode::None, CopyMode::All(0o700)] {
+        v.push(Op::CopyB(p.clone(), "/cpy".into(), m.clone(), true));
+        v.push(Op::CopyB("/a".into(), p.clone(), m, true));
+    }
+    v
 }
 
 fn run_ops(state_k: usize, ops: &[Op], classes: &str, rep: &mut Report) {
@@ -416,8 +441,12 @@ fn c12(ctx: &Ctx, rep: &mut Report) {
     }
     // two-path methods on meaningful nestings
     if ctx.shard == 0 {
-        let hot = ["/", "/a", "/a/b", "/a/f", "/l", "/a/lf", "/a/b/up", "/a/b/x/y", "/zz", "", "..", "/a/..", "/a/b/.."];
+        let hot = ["/", "/a", "/a/b", "/a/f", "/l", "/a/lf", "/a/b/up", "/a/b/x/y", "/zz", "", "..", "/a/..", "/a/b/..", "/stl", "/stf", "/st"];
         for a in hot {
+            for k in 1..3 {
+                run_ops(k, &ops_one(a), &format!("prepared:{}", if a.starts_with("/st") { "stale-link" } else { "entry" }), rep);
+                run_ops(k, &follow_ops(a), &format!("prepared-follow:{}", if a.starts_with("/st") { "stale-link" } else { "entry" }), rep);
+            }
             for b in hot {
                 for k in 1..3 {
                     run_ops(k, &ops_two(a, b), &format!("prepared:{},{}", sclass(a), sclass(b)), rep);
